@@ -247,9 +247,11 @@ func (c *scaledConn) squeeze(d time.Time) time.Time {
 	return time.Now().Add(time.Until(d) / time.Duration(c.scale))
 }
 
-func (c *scaledConn) SetDeadline(d time.Time) error      { return c.Conn.SetDeadline(c.squeeze(d)) }
-func (c *scaledConn) SetReadDeadline(d time.Time) error  { return c.Conn.SetReadDeadline(c.squeeze(d)) }
-func (c *scaledConn) SetWriteDeadline(d time.Time) error { return c.Conn.SetWriteDeadline(c.squeeze(d)) }
+func (c *scaledConn) SetDeadline(d time.Time) error     { return c.Conn.SetDeadline(c.squeeze(d)) }
+func (c *scaledConn) SetReadDeadline(d time.Time) error { return c.Conn.SetReadDeadline(c.squeeze(d)) }
+func (c *scaledConn) SetWriteDeadline(d time.Time) error {
+	return c.Conn.SetWriteDeadline(c.squeeze(d))
+}
 
 // DeadlineCalls returns how many deadlines the client has set so far.
 func (t *Transport) DeadlineCalls() int {
